@@ -1,11 +1,14 @@
 """Per-property descriptions used by /verif/check: how cases are generated, what is trusted,
 and property-specific extra steps (other build variants, other processes)."""
 
+import miri as _miri
+
 PROPS = {}
 NOT_CLAIMED = {}
 HOOK_COMMITS = ["df4b594"]
 
 PROPS["C19"] = {
+    "special": _miri.make("C19", ["stride=400"]),
     "technique": 'exhaustive enumeration of the whole input space, results compared with integer arithmetic',
     "level_text": "The type's whole input space is finite and is enumerated completely on every run against plain integer arithmetic; any deviation of any public method on any input is observed.",
     "exhaustive": True,
@@ -18,10 +21,11 @@ PROPS["C19"] = {
 }
 
 PROPS["C20"] = {
+    "special": _miri.make("C20", ["len=3", "norandom"]),
     "technique": 'exhaustive small-scope enumeration + random differential testing against BTreeSet',
-    "level_text": 'Every pair of vectors over a 4-letter alphabet up to length 4 (quick) / 6 (thorough) is run through every public operation and compared with BTreeSet, plus random long operands; exploration, complete within the stated scope.',
+    "level_text": 'Every pair of vectors over a 4-letter alphabet up to length 5 (quick) / 6 (thorough) is run through every public operation and compared with BTreeSet, plus random long operands; exploration, complete within the stated scope.',
     "exhaustive": ("thorough",),
-    "rule": "exhaustive enumeration of all ordered pairs of vectors over {0,1,2,3} up to length 4 (quick) / 6 (thorough): "
+    "rule": "exhaustive enumeration of all ordered pairs of vectors over {0,1,2,3} up to length 5 (quick) / 6 (thorough): "
             "From<Vec>, union, contains, find_first_following compared with BTreeSet; plus seeded random longer vectors "
             "(<= 2000 elements) and Arc<str> elements. A pair is non-trivial when neither operand is empty; distinct = "
             "enumerated pairs (distinct by construction) + distinct random pairs by hash.",
@@ -41,6 +45,7 @@ PROPS["C14"] = {
 }
 
 PROPS["C15"] = {
+    "special": _miri.make("C15", ["reduced"], fuzz_target="c15"),
     "technique": 'random insertion histories compared operation-by-operation with a BTreeSet reference model',
     "level_text": 'Tens of thousands of seeded insertion histories (thorough: millions) with hostile year layouts are checked against a sorted-set model after every operation, including serialization framing; thorough also runs a reduced workload under Miri.',
     "rule": "seeded random insertion histories (years far apart, negative years, growth at both ends, duplicates, Dec 31/Jan 1 "
